@@ -9,8 +9,12 @@
     delegation.rs  `DelegationManager::{register, revoke}` (self / cycle / depth checks);
     vault.rs       `set_inner, get, list, rotate, delete, grant_with_permission, grant_with_ttl,
                    revoke, cleanup_expired_grants, delegate, revoke_delegation, check_access_with_permission`.
-  The code as it IS: `cleanup_expired_grants` runs only at the top of `get` and `list`;
-  every other operation consults the graph without looking at the TTL tracker.
+  The code as it IS (after 4e577a4d / 31ebe3e9): `cleanup_expired_grants` runs at the top of `get` and
+  `list` AND, for every non-root caller, inside `check_access_with_permission`, `has_access` and
+  `get_permission` before the graph is consulted — so every guarded operation drops expired grants
+  (a state change that survives a failed check) before it decides.  The `vault_secret:` node record
+  no longer carries the secret name.  The pre-fix behaviours are kept as `…Old` definitions at the
+  end of the file, only for the `_witness` theorems.
 
   Identities, secret names and secret values are alpha-renamed to `Nat`.  Graph nodes are `Nat`:
   entity `e` ↦ `2*e`, secret `s` ↦ `2*s+1` (its `vault_secret:<obf>` node).  Root is entity 0.
@@ -254,23 +258,19 @@ def root : Nat := 0
 def State.findSecret (s : State) (name : Nat) : Option SecretMeta := s.secrets.find? (·.name = name)
 def State.exists (s : State) (name : Nat) : Bool := (s.findSecret name).isSome
 
-/-- `get_permission` for a non-root requester -/
+/-- `get_permission_level_verified(requester, secret_node)` on the current graph -/
 def State.perm (s : State) (req sec : Nat) : Option Level :=
   permLevel s.pol s.graph (entNode req) (secNode sec)
 
-/-- `check_access_with_permission` -/
-def State.checkAccess (s : State) (req sec : Nat) (need : Level) : Except Err Unit :=
-  if req = root then .ok ()
-  else match s.perm req sec with
-    | some p =>
-      if p.allows need then .ok ()
-      else if checkPath s.graph (entNode req) (secNode sec) then .error .insufficient else .error .denied
-    | none =>
-      if checkPath s.graph (entNode req) (secNode sec) then .error .insufficient else .error .denied
-
-/-- `has_access` -/
-def State.hasAccess (s : State) (req sec : Nat) : Bool :=
-  req = root || (s.perm req sec).isSome
+/-- the three-way outcome of `check_access_with_permission` once the graph is consulted:
+    `check_path_with_permission_verified`, else `check_path` picks the error kind -/
+def State.checkGraph (s : State) (req sec : Nat) (need : Level) : Except Err Unit :=
+  match s.perm req sec with
+  | some p =>
+    if p.allows need then .ok ()
+    else if checkPath s.graph (entNode req) (secNode sec) then .error .insufficient else .error .denied
+  | none =>
+    if checkPath s.graph (entNode req) (secNode sec) then .error .insufficient else .error .denied
 
 def accessEdge (id ent sec : Nat) (l : Level) (expiry : Option Nat) : Edge :=
   { id := id, src := entNode ent, dst := secNode sec, kind := .access (some l) (some l) true, expiry := expiry }
@@ -319,6 +319,30 @@ def State.cleanup (s : State) (now : Nat) : State :=
 def ttlRemove (l : List TtlEntry) (ent sec : Nat) : List TtlEntry :=
   l.filter (fun t => !(t.ent = ent && t.sec = sec))
 
+/-! ## the three authorisation entry points (each expires grants first for a non-root caller) -/
+
+/-- `check_access_with_permission`: root passes untouched; for anybody else `cleanup_expired_grants()`
+    runs first.  Returns the state as well: the cleanup survives a failed check. -/
+def State.checkAccess (s : State) (now req sec : Nat) (need : Level) : State × Except Err Unit :=
+  if req = root then (s, .ok ())
+  else
+    let s' := s.cleanup now
+    (s', s'.checkGraph req sec need)
+
+/-- `has_access` (its answer; its only state effect is `cleanup now`, see `State.list`) -/
+def State.hasAccess (s : State) (now req sec : Nat) : Bool :=
+  req = root || ((s.cleanup now).perm req sec).isSome
+
+/-- `get_permission` (its answer: root = Admin; its only state effect for a non-root caller is `cleanup now`) -/
+def State.getPermission (s : State) (now req sec : Nat) : Option Level :=
+  if req = root then some .admin else (s.cleanup now).perm req sec
+
+/-- `self.check_access_with_permission(req, key, need)?; rest` -/
+def State.guarded (s : State) (now req sec : Nat) (need : Level) (rest : State → State × Resp) : State × Resp :=
+  match s.checkAccess now req sec need with
+  | (s', .error e) => (s', .err e)
+  | (s', .ok _) => rest s'
+
 def pruneVersions (maxV : Nat) (name : Nat) (vs : List Nat) (st : Store) : List Nat × Store :=
   let dropN := vs.length - maxV
   ((vs.drop dropN), (vs.take dropN).foldl (fun st n => st.del (.blob name n)) st)
@@ -337,9 +361,9 @@ def metaRec (name nonce : Nat) (versions : List Nat) (rotated : Option Nat) : Re
 def blobRec (name nonce val : Nat) : Rec :=
   { key := .blob name nonce, fields := [("_data", .cipher (.value val)), ("_nonce", .nonce nonce), ("_ts", .int 0)] }
 
-/-- the `vault_secret:<obf>` node record: `_secret_key` holds the NAME in the clear (vault.rs:554) -/
+/-- the `vault_secret:<obf>` node record: only the `_type` tag (vault.rs:549) -/
 def nodeRec (name : Nat) : Rec :=
-  { key := .node name, fields := [("_type", .tag "vault_secret"), ("_secret_key", .clear [.name name])] }
+  { key := .node name, fields := [("_type", .tag "vault_secret")] }
 
 /-! ## operations -/
 
@@ -376,13 +400,11 @@ def State.putSecret (s : State) (m : SecretMeta) : State :=
   { s with secrets := s.secrets.filter (·.name ≠ m.name) ++ [m] }
 
 /-- `set_inner` (ttl = None) -/
-def State.set (s : State) (req sec val size : Nat) : State × Resp :=
+def State.set (s : State) (now req sec val size : Nat) : State × Resp :=
   if size > s.maxValueSize then (s, .err .tooLarge) else
   match s.findSecret sec with
   | some m =>
-    match s.checkAccess req sec .write with
-    | .error e => (s, .err e)
-    | .ok _ =>
+    s.guarded now req sec .write fun s =>
       let nonce := s.nextId
       let st1 := s.store.put (blobRec sec nonce val)
       let (vs, st2) := pruneVersions s.maxVersions sec (m.versions ++ [nonce]) st1
@@ -399,27 +421,23 @@ def State.set (s : State) (req sec val size : Nat) : State × Resp :=
     let s' := s'.putSecret { name := sec, value := val, versions := [nonce] }
     ((s'.addAccess root sec .admin none).audit req sec "set", .ok)
 
-/-- `get` -/
+/-- `get`: opportunistic cleanup for every caller, then `check_access` -/
 def State.get (s : State) (now req sec : Nat) : State × Resp :=
-  let s := s.cleanup now
-  match s.checkAccess req sec .read with
-  | .error e => (s, .err e)
-  | .ok _ =>
+  (s.cleanup now).guarded now req sec .read fun s =>
     match s.findSecret sec with
     | none => (s, .err .notFound)
     | some m => (s.audit req sec "get", .value m.value)
 
-/-- `list` -/
+/-- `list`: cleanup for every caller, then `has_access` per stored secret (for a non-root caller each
+    `has_access` runs `cleanup` again at the same instant — a no-op, `cleanup_cleanup` in Lemmas) -/
 def State.list (s : State) (now req : Nat) (p : Pattern) : State × Resp :=
   let s := s.cleanup now
-  let names := (s.secrets.filter (fun m => p.isMatch m.name && s.hasAccess req m.name)).map (·.name)
+  let names := (s.secrets.filter (fun m => p.isMatch m.name && s.hasAccess now req m.name)).map (·.name)
   (s.audit req 0 "list", .names names)
 
 /-- `rotate` -/
-def State.rotate (s : State) (req sec val size : Nat) : State × Resp :=
-  match s.checkAccess req sec .write with
-  | .error e => (s, .err e)
-  | .ok _ =>
+def State.rotate (s : State) (now req sec val size : Nat) : State × Resp :=
+  s.guarded now req sec .write fun s =>
     match s.findSecret sec with
     | none => (s, .err .notFound)
     | some m =>
@@ -432,10 +450,8 @@ def State.rotate (s : State) (req sec val size : Nat) : State × Resp :=
       ((s'.putSecret { m with value := val, versions := vs }).audit req sec "rotate", .ok)
 
 /-- `delete` -/
-def State.delete (s : State) (req sec : Nat) : State × Resp :=
-  match s.checkAccess req sec .admin with
-  | .error e => (s, .err e)
-  | .ok _ =>
+def State.delete (s : State) (now req sec : Nat) : State × Resp :=
+  s.guarded now req sec .admin fun s =>
     match s.findSecret sec with
     | none => (s, .err .notFound)
     | some m =>
@@ -448,39 +464,29 @@ def State.delete (s : State) (req sec : Nat) : State × Resp :=
                          secrets := s.secrets.filter (·.name ≠ sec) }
       (s'.persistTtl.audit req sec "delete", .ok)
 
-/-- `grant_with_permission` -/
-def State.grantCore (s : State) (req ent sec : Nat) (l : Level) (expiry : Option Nat) : Except Err State :=
-  match s.checkAccess req sec .admin with
-  | .error e => .error e
-  | .ok _ =>
-    if !s.exists sec then .error .notFound
-    else .ok ((s.addAccess ent sec l expiry).audit req sec "grant" [.ident ent])
+/-- `grant_with_permission` (answers `.ok` or `.err _`) -/
+def State.grantCore (s : State) (now req ent sec : Nat) (l : Level) (expiry : Option Nat) : State × Resp :=
+  s.guarded now req sec .admin fun s =>
+    if !s.exists sec then (s, .err .notFound)
+    else ((s.addAccess ent sec l expiry).audit req sec "grant" [.ident ent], .ok)
 
-def State.grant (s : State) (req ent sec : Nat) (l : Level) : State × Resp :=
-  match s.grantCore req ent sec l none with
-  | .error e => (s, .err e)
-  | .ok s' => (s', .ok)
+def State.grant (s : State) (now req ent sec : Nat) (l : Level) : State × Resp :=
+  s.grantCore now req ent sec l none
 
 /-- `grant_with_ttl` -/
 def State.grantTtl (s : State) (now req ent sec : Nat) (l : Level) (ttl : Nat) : State × Resp :=
-  match s.grantCore req ent sec l (some (now + ttl)) with
-  | .error e => (s, .err e)
-  | .ok s' =>
+  match s.grantCore now req ent sec l (some (now + ttl)) with
+  | (s', .err e) => (s', .err e)
+  | (s', _) =>
     (State.persistTtl { s' with ttl := s'.ttl ++ [TtlEntry.mk ent sec (now + ttl)] }, .ok)
 
 /-- `revoke` -/
-def State.revoke (s : State) (req ent sec : Nat) : State × Resp :=
-  match s.checkAccess req sec .admin with
-  | .error e => (s, .err e)
-  | .ok _ =>
+def State.revoke (s : State) (now req ent sec : Nat) : State × Resp :=
+  s.guarded now req sec .admin fun s =>
     let s1 := { s with graph := dropAccess s.graph ent sec }
     let ttl' := ttlRemove s1.ttl ent sec
     let s2 := if ttl'.length < s1.ttl.length then State.persistTtl { s1 with ttl := ttl' } else s1
     (s2.audit req sec "revoke" [.ident ent], .ok)
-
-/-- `get_permission` (root = Admin) -/
-def State.getPermission (s : State) (req sec : Nat) : Option Level :=
-  if req = root then some .admin else s.perm req sec
 
 /-- `DelegationManager::delegation_depth`: depth of a record whose child is `e` (0 if none) -/
 def delegDepth (ds : List DelegRec) (e : Nat) : Nat :=
@@ -499,36 +505,48 @@ def isAncestor (ds : List DelegRec) (ancestor : Nat) : Nat → Nat → List Nat 
       else if seen.contains d.parent then false
       else isAncestor ds ancestor fuel d.parent (d.parent :: seen)
 
-/-- first loop of `delegate`: parent needs `l` on every secret -/
-def State.delegCheck (s : State) (parent : Nat) (l : Level) : List Nat → Except Err Unit
+/-- first loop of `delegate`: parent needs `l` on every secret (`get_permission` per secret) -/
+def State.delegCheck (s : State) (now parent : Nat) (l : Level) : List Nat → Except Err Unit
   | [] => .ok ()
   | sec :: rest =>
-    match s.getPermission parent sec with
+    match s.getPermission now parent sec with
     | none => .error .denied
-    | some p => if p.allows l then s.delegCheck parent l rest else .error .insufficient
+    | some p => if p.allows l then s.delegCheck now parent l rest else .error .insufficient
 
-/-- `delegate` -/
+/-- second half of `delegate`, after the permission loops: `DelegationManager::register` (self / cycle /
+    depth checks), one VAULT_ACCESS edge child → secret per secret at the effective level, TTL entries,
+    persistence of both trackers, one audit record per secret -/
+def State.delegateApply (s : State) (now parent child : Nat) (secs : List Nat) (eff : Level) (ttl : Option Nat) :
+    State × Resp :=
+  if parent = child then (s, .err .graphErr)
+  else if isAncestor s.delegs child (s.delegs.length + 1) parent [parent] then (s, .err .graphErr)
+  else
+    let depth := delegDepth s.delegs parent + 1
+    if depth > s.maxDeleg then (s, .err .graphErr) else
+    let ds := s.delegs.filter (fun d => !(d.parent = parent && d.child = child)) ++
+                [DelegRec.mk parent child secs depth]
+    let exp := ttl.map (now + ·)
+    let s1 := secs.foldl (fun st sec => st.addAccess child sec eff exp) { s with delegs := ds }
+    let s2 := match ttl with
+      | some t => State.persistTtl { s1 with ttl := s1.ttl ++ secs.map (fun sec => TtlEntry.mk child sec (now + t)) }
+      | none => s1
+    let s3 := s2.persistDelegs
+    (secs.foldl (fun st sec => st.audit parent sec "grant" [.ident child]) s3, .level eff)
+
+/-- the effective ceiling of `delegate`: min over the secrets of min(parent's level, requested) -/
+def State.delegEff (s : State) (now parent : Nat) (l : Level) (secs : List Nat) : Level :=
+  secs.foldl (fun acc sec =>
+    let pp := (s.getPermission now parent sec).getD .read
+    if pp.toNat < acc.toNat then pp else acc) l
+
+/-- `delegate`.  Every `get_permission(parent, _)` call of the two loops expires grants first when the
+    parent is not root; all of them happen at the same instant, so their combined state effect is one
+    `cleanup now` (none at all for root or for an empty secret list). -/
 def State.delegate (s : State) (now parent child : Nat) (secs : List Nat) (l : Level) (ttl : Option Nat) : State × Resp :=
-  match s.delegCheck parent l secs with
-  | .error e => (s, .err e)
-  | .ok _ =>
-    let eff := secs.foldl (fun acc sec =>
-      let pp := (s.getPermission parent sec).getD .read
-      if pp.toNat < acc.toNat then pp else acc) l
-    if parent = child then (s, .err .graphErr)
-    else if isAncestor s.delegs child (s.delegs.length + 1) parent [parent] then (s, .err .graphErr)
-    else
-      let depth := delegDepth s.delegs parent + 1
-      if depth > s.maxDeleg then (s, .err .graphErr) else
-      let ds := s.delegs.filter (fun d => !(d.parent = parent && d.child = child)) ++
-                  [DelegRec.mk parent child secs depth]
-      let exp := ttl.map (now + ·)
-      let s1 := secs.foldl (fun st sec => st.addAccess child sec eff exp) { s with delegs := ds }
-      let s2 := match ttl with
-        | some t => State.persistTtl { s1 with ttl := s1.ttl ++ secs.map (fun sec => TtlEntry.mk child sec (now + t)) }
-        | none => s1
-      let s3 := s2.persistDelegs
-      (secs.foldl (fun st sec => st.audit parent sec "grant" [.ident child]) s3, .level eff)
+  let s' := if parent = root || secs.isEmpty then s else s.cleanup now
+  match s.delegCheck now parent l secs with
+  | .error e => (s', .err e)
+  | .ok _ => s'.delegateApply now parent child secs (s.delegEff now parent l secs) ttl
 
 /-- `revoke_delegation` (no permission check in the code) -/
 def State.undelegate (s : State) (parent child : Nat) : State × Resp :=
@@ -549,14 +567,14 @@ def State.delMember (s : State) (a b : Nat) : State × Resp :=
 
 /-- one API call at time `now` -/
 def step (s : State) (now : Nat) : Op → State × Resp
-  | .set req sec val size => s.set req sec val size
+  | .set req sec val size => s.set now req sec val size
   | .get req sec => s.get now req sec
   | .list req p => s.list now req p
-  | .rotate req sec val size => s.rotate req sec val size
-  | .delete req sec => s.delete req sec
-  | .grant req ent sec l => s.grant req ent sec l
+  | .rotate req sec val size => s.rotate now req sec val size
+  | .delete req sec => s.delete now req sec
+  | .grant req ent sec l => s.grant now req ent sec l
   | .grantTtl req ent sec l ttl => s.grantTtl now req ent sec l ttl
-  | .revoke req ent sec => s.revoke req ent sec
+  | .revoke req ent sec => s.revoke now req ent sec
   | .delegate p c secs l ttl => s.delegate now p c secs l ttl
   | .undelegate p c => s.undelegate p c
   | .addMember a b => s.addMember a b
@@ -570,5 +588,39 @@ def run (s : State) : List (Nat × Op) → State
 /-- fresh vault after `Vault::new` (`ensure_root_exists`) with the given configuration -/
 def init (pol : Policy := {}) (maxDeleg : Nat := 3) (maxValueSize : Nat := 65531) (maxVersions : Nat := 5) : State :=
   { pol := pol, maxDeleg := maxDeleg, maxValueSize := maxValueSize, maxVersions := maxVersions }
+
+/-! ## pre-fix behaviour — kept ONLY for the `_witness` theorems (what the code did before 4e577a4d / 31ebe3e9) -/
+
+/-- `check_access_with_permission` before 4e577a4d: the graph is consulted without expiring grants -/
+def State.checkAccessOld (s : State) (req sec : Nat) (need : Level) : Except Err Unit :=
+  if req = root then .ok () else s.checkGraph req sec need
+
+/-- the `vault_secret:<obf>` node record before 31ebe3e9: `_secret_key` held the NAME in the clear -/
+def nodeRecOld (name : Nat) : Rec :=
+  { key := .node name, fields := [("_type", .tag "vault_secret"), ("_secret_key", .clear [.name name])] }
+
+/-- `set_inner` before both fixes -/
+def State.setOld (s : State) (req sec val size : Nat) : State × Resp :=
+  if size > s.maxValueSize then (s, .err .tooLarge) else
+  match s.findSecret sec with
+  | some m =>
+    match s.checkAccessOld req sec .write with
+    | .error e => (s, .err e)
+    | .ok _ =>
+      let nonce := s.nextId
+      let st1 := s.store.put (blobRec sec nonce val)
+      let (vs, st2) := pruneVersions s.maxVersions sec (m.versions ++ [nonce]) st1
+      let st3 := st2.put (metaRec sec nonce vs none)
+      let s' := { s with store := st3, nextId := s.nextId + 1 }
+      ((s'.putSecret { m with value := val, versions := vs }).audit req sec "set", .ok)
+  | none =>
+    if req ≠ root then (s, .err .denied) else
+    let nonce := s.nextId
+    let st1 := s.store.put (blobRec sec nonce val)
+    let st2 := st1.put (metaRec sec nonce [nonce] none)
+    let st3 := st2.put (nodeRecOld sec)
+    let s' := { s with store := st3, nextId := s.nextId + 1 }
+    let s' := s'.putSecret { name := sec, value := val, versions := [nonce] }
+    ((s'.addAccess root sec .admin none).audit req sec "set", .ok)
 
 end Neumann.Vault
